@@ -29,6 +29,7 @@ SERVICES: Dict[str, Tuple[List[int], int, List[int], int, Any]] = {
     "Sg": ([0x22], 2, [0x62], 2, None),
     "Sh": ([0x2E, 0xF1], 1, [0x6E, 0xF1], 1, None),      # emitted as ONE 16 bit constant
     "Si": ([0x85], 1, [0xC5], 1, [[0x12], [0x22]]),      # two negative responses with the same constant prefix
+    "Sj": ([0x00], 1, [0x40], 1, None),                  # the service identifier 00
 }
 WIDE = {"Sh"}
 
